@@ -374,5 +374,13 @@ class P4DirectlyAmplitudeModel(BaseAmplitudeModel):
         return ret
 
     def pdf(self, data):
-        new_data = self.cal_angle(data["p4"])
+        p4 = data["p4"]
+        if self.extra_kwargs["all_config"].get("cp_trans", True):
+            # same convention as the default preprocessor: the momenta of
+            # charge-conjugated events are parity transformed
+            from tf_pwa.cal_angle import parity_trans
+
+            charges = data.get("charge_conjugation", None)
+            p4 = {k: parity_trans(v, charges) for k, v in p4.items()}
+        new_data = self.cal_angle(p4)
         return self.decay_group.sum_amp({**new_data, **data})
